@@ -1684,6 +1684,10 @@ func unmarshalList(info TypeInfo, data []byte, value interface{}) error {
 			return err
 		}
 		data = data[p:]
+		// every element carries its own length prefix of p bytes
+		if n < 0 || n > len(data)/p {
+			return unmarshalErrorf("unmarshal list: unexpected eof")
+		}
 		if k == reflect.Array {
 			if rv.Len() != n {
 				return unmarshalErrorf("unmarshal list: array with wrong size")
@@ -1804,8 +1808,12 @@ func unmarshalMap(info TypeInfo, data []byte, value interface{}) error {
 	if n < 0 {
 		return unmarshalErrorf("negative map size %d", n)
 	}
-	rv.Set(reflect.MakeMapWithSize(t, n))
 	data = data[p:]
+	// every entry carries two length prefixes of p bytes each
+	if n > len(data)/(2*p) {
+		return unmarshalErrorf("unmarshal map: unexpected eof")
+	}
+	rv.Set(reflect.MakeMapWithSize(t, n))
 	for i := 0; i < n; i++ {
 		m, p, err := readCollectionSize(mapInfo, data)
 		if err != nil {
